@@ -412,12 +412,26 @@ class Interp:
             obj = self.eval(st, t.value, fr)
             cur = self.getattr(st, obj, mangle(fr, t.attr), fr)
             rhs = self.eval(st, s.value, fr)
+            if isinstance(cur, LRef) and isinstance(s.op, ast.Add):
+                # `obj.attr += iterable` on a list is list.__iadd__: the list object is extended IN PLACE (every alias
+                # sees it) and then stored back -- not `obj.attr = obj.attr + iterable` (a new list).  As for a Name
+                # target above; cross-checked against CPython by spec/xcheck_cases.py:x_iadd_alias.
+                from .builtins_model import call_method
+
+                call_method(self, st, cur, "extend", [rhs], {})
+                self.setattr(st, obj, mangle(fr, t.attr), cur, fr)
+                return
             self.setattr(st, obj, mangle(fr, t.attr), self.binop(st, s.op, cur, rhs), fr)
         elif isinstance(t, ast.Subscript):
             obj = self.eval(st, t.value, fr)
             idx = self.eval_index(st, t.slice, fr)
             cur = self.subscript(st, obj, idx)
             rhs = self.eval(st, s.value, fr)
+            if type(cur) is LRef and isinstance(s.op, ast.Add):
+                from .builtins_model import call_method
+
+                call_method(self, st, cur, "extend", [rhs], {})  # in place, as above (x[i] already holds `cur`)
+                return
             self.store_subscript(st, obj, idx, self.binop(st, s.op, cur, rhs))
         else:
             raise Unsupported("augmented assignment target")
